@@ -63,6 +63,10 @@ def generate(seed, tier):
                 t[0] = t[0][:1].upper() + t[0][1:2] + t[0][2:3].upper() + t[0][3:]   # McDonald
             elif r < 0.25:
                 t[0] = t[0][:1] + t[0][1:].upper()       # iPHONE
+    unencodable = False
+    if enc == "latin-1" and rng.random() < 0.08 and tb:
+        tb[0]["tokens"][0][0] = rng.choice(["Dvořák", "łódź", "中文"])
+        unencodable = True
     mode = None
     if rng.random() < 0.6:
         mode = c08.gen_mode(rng)
@@ -79,7 +83,7 @@ def generate(seed, tier):
     if fmt == "lopar" and rng.random() < 0.08:
         platform = rng.choice(["Darwin", "Windows"])
     prior = []
-    if path == "api" and rng.random() < 0.3:
+    if path == "api" and rng.random() < 0.3 and not unencodable:
         prior = [model.gen_treebank(rng, k, nsent=rng.choice([1, 2]))
                  for _ in range(rng.choice([1, 3, 6]))]
         for ptb in prior:
@@ -92,7 +96,7 @@ def generate(seed, tier):
         second = {"fmt": rng.choice(["pmcfg", "rcg"]),
                   "opts": {"lex_in_grammar": True} if rng.random() < 0.5 else {}}
     return {"tb": tb, "fmt": fmt, "enc": enc, "mode": mode, "path": path, "opts": opts,
-            "second_write": second,
+            "second_write": second if not unencodable else None, "unencodable": unencodable,
             "extra": (model.gen_treebank(rng, k, nsent=rng.choice([1, 2]))
                       if rng.random() < 0.3 else []),
             "prior": prior, "prefix": rng.choice(["g", "g", "g.bin", "negra.train", "gram.v2"]),
@@ -181,7 +185,7 @@ def execute(sc, sim):
     global OUT
     OUT = out_prefix(sc)          # one scenario at a time per worker
     st = cm.Stats()
-    st.declare("same_grammar_written_twice", "extract_into_reread_grammar", "reread_without_final_newline", "earlier_grammars_written_in_same_process", "rule_count_above_1", "ambiguous_word", "non_ascii_word", "fanout_above_1",
+    st.declare("word_not_encodable_in_destination_encoding", "same_grammar_written_twice", "extract_into_reread_grammar", "reread_without_final_newline", "earlier_grammars_written_in_same_process", "rule_count_above_1", "ambiguous_word", "non_ascii_word", "fanout_above_1",
                "lex_in_grammar", "cli_path", "own_reader_reread", "grammar_cmd_from_rcg",
                "lopar_refuses_non_cf", "lopar_start_2plus_symbols", "second_hash_seed",
                "shared_linearization_sequence", "other_platform_refused")
@@ -258,6 +262,10 @@ def execute(sc, sim):
         if not failed:
             viols.append(cm.viol("C09/lopar/non-context-free-grammar-not-refused"))
         return done(sc, st, viols)
+    if sc.get("unencodable"):
+        st.probe("word_not_encodable_in_destination_encoding")
+        if failed:
+            return done(sc, st, viols)           # refusing is fine; writing something else is not
     if failed:
         viols.append(cm.viol("C09/write-failed/%s/%s/%s" % (fmt, sc["path"],
                                                             wrec.get("exc") or "exit"),
